@@ -299,7 +299,7 @@ fn selftest(pals: &[Palette]) -> (u64, u64) {
 
 pub fn check(tier: Tier) -> i32 {
     let started = Instant::now();
-    let depth = tier.pick(6, 10);
+    let depth = tier.pick(7, 10);
     let pals: Arc<Vec<Palette>> = Arc::new(ALL13.iter().map(|t| Palette::new(*t, None)).collect());
     let mut inits = vec![];
     for t in 0..13u8 {
